@@ -475,7 +475,7 @@ pub struct Script {
     pub lines: Vec<String>,
     /// which of USR1 / USR2 have a command trap (the other one is ignored or untouched-and-never-sent)
     pub trap1: bool,
-    pub trap2: u8, // 0 none (never sent), 1 command, 2 ignored
+    pub trap2: u8, // 0 none (never sent), 1 command, 2 ignored, 3 ignored on entry (trap refused)
     /// spaced: the next signal is sent only after the previous action finished
     pub spaced: bool,
     pub rate: u32,
@@ -484,13 +484,16 @@ pub struct Script {
 
 fn gen_script(rng: &mut Rng, tier: Tier) -> Script {
     let trap1 = true;
-    let trap2 = rng.below(3) as u8;
+    let trap2 = rng.below(4) as u8;
     let mut lines = Vec::new();
     let nap1 = if rng.below(3) == 0 { format!("nap {}; ", rng.range(1, 3)) } else { String::new() };
     lines.push(format!("trap 'mark tb U1; {nap1}echo u1 >>/work/tlog; mark te U1; rc 7' USR1"));
     match trap2 {
         1 => lines.push("trap 'mark tb U2; echo u2 >>/work/tlog; mark te U2; rc 9' USR2".into()),
         2 => lines.push("trap '' USR2".into()),
+        // the shell was started with USR2 ignored: the trap must be refused
+        // and the signal must stay ignored
+        3 => lines.push("trap 'mark tb U2; mark te U2' USR2 2>/dev/null; echo \"trap=$?\"".into()),
         _ => {}
     }
     lines.push("mark armed".into());
@@ -557,7 +560,7 @@ fn check_script(s: &Script, base: &Observed, obs: &Observed) -> Option<Viol> {
     if let Some(v) = check_liveness(obs) {
         return Some(v);
     }
-    if obs.stdout != base.stdout || obs.status != base.status || !obs.stderr.is_empty() {
+    if obs.stdout != base.stdout || obs.status != base.status || obs.stderr != base.stderr {
         return Some((
             "interference".into(),
             "interference".into(),
@@ -639,11 +642,19 @@ fn draw_config(rng: &mut Rng, k: u32) -> SimConfig {
 fn run_script_case(s: &Script, cfg: &SimConfig, decider: Decider) -> (Observed, Option<Viol>) {
     // the same script without signals gives the expected stdout and status
     let base_cfg = SimConfig::default();
-    let base = run_script_with(&spec_of(s), &base_cfg, Decider::record(Rng::new(1)), |_| {}, signal_env(s, false));
-    if let Some(v) = check_liveness(&base) {
-        return (base, Some(v));
+    let ignore_usr2 = s.trap2 == 3;
+    let setup = move |w: &mut crate::world::World| {
+        if ignore_usr2 {
+            w.system.sigaction(SIGUSR2, Disposition::Ignore).ok();
+        }
+    };
+    let base = run_script_with(&spec_of(s), &base_cfg, Decider::record(Rng::new(1)), setup, signal_env(s, false));
+    if ignore_usr2 && !base.stdout.contains("trap=") {
+        return (base, Some(("trace".into(), "trace".into(), "the script did not report the status of the refused trap".into())));
     }
-    let obs = run_script_with(&spec_of(s), cfg, decider, |_| {}, signal_env(s, true));
+    // (POSIX: no error need be reported for the refused trap; what matters is
+    // that the action never runs and the signal stays ignored - checked below)
+    let obs = run_script_with(&spec_of(s), cfg, decider, setup, signal_env(s, true));
     let v = check_script(s, &base, &obs);
     (obs, v)
 }
